@@ -527,7 +527,9 @@ macro_rules! primitive_int_try_from {
             ValueRepr::I64(val) => val,
             ValueRepr::U64(val) => val,
             // for the intention here see Key::from_borrowed_value
-            ValueRepr::F64(val) if (val as i64 as f64 == val) => val as i64,
+            // the upper bound is needed because the cast saturates: 2^63 as i64 is
+            // i64::MAX which converts back to 2^63.
+            ValueRepr::F64(val) if (val as i64 as f64 == val && val < i64::MAX as f64) => val as i64,
             ValueRepr::I128(val) => val.0,
             ValueRepr::U128(val) => val.0,
         });
